@@ -53,6 +53,11 @@ class Interp:
             return VTuple([self.fresh_value(et, "%s_%d" % (hint, i)) for i, et in enumerate(t.elems)], t)
         if isinstance(t, TRec):
             return VRec({fn: self.fresh_value(ft, "%s_%s" % (hint, fn)) for fn, ft in t.fields.items()}, t)
+        if isinstance(t, TDRec):
+            v = VDRec(p.fresh(hint, t.sort()), t)
+            for fn, ft in t.fields.items():
+                self._assume_wf_expr(t.val(fn, v.e), ft)
+            return v
         if isinstance(t, TList):
             arr = p.fresh(hint + "_arr", z3.ArraySort(z3.IntSort(), t.elem.sort()))
             n = p.fresh(hint + "_n", z3.IntSort())
@@ -282,6 +287,8 @@ class Interp:
             return z3.BoolVal(len(v.items) > 0)
         if isinstance(v, VDictRec):
             return z3.BoolVal(len(v.fields) > 0)
+        if isinstance(v, VDRec):
+            return z3.BoolVal(True) if v.t.required else z3.Or([v.has(fn) for fn in v.t.optional] + [z3.BoolVal(False)])
         if _is_j(v):
             from . import jsontree
             return jsontree.truth(self, v)
@@ -353,6 +360,22 @@ class Interp:
             if len(a.items) != len(b.items):
                 return z3.BoolVal(False)
             return z3.And([self.eq(x, y) for x, y in zip(a.items, b.items)] + [z3.BoolVal(True)])
+        if isinstance(a, VDRec) or isinstance(b, VDRec):
+            if isinstance(a, VDictRec) and drec_shape_ok(a, b.t):
+                a = b.t.wrap(drec_of_literal(a, b.t))
+            if isinstance(b, VDictRec) and drec_shape_ok(b, a.t):
+                b = a.t.wrap(drec_of_literal(b, a.t))
+            if not (isinstance(a, VDRec) and isinstance(b, VDRec) and a.t == b.t):
+                return z3.BoolVal(False)
+            # dict equality: same keys present, equal values on them (values of absent keys are irrelevant)
+            conj = []
+            for fn in a.t.fields:
+                if fn in a.t.optional:
+                    conj.append(a.has(fn) == b.has(fn))
+                    conj.append(z3.Implies(a.has(fn), self.eq(a.field(fn), b.field(fn))))
+                else:
+                    conj.append(self.eq(a.field(fn), b.field(fn)))
+            return z3.And(conj + [z3.BoolVal(True)])
         if isinstance(a, VRec) and isinstance(b, VRec):
             if a.t.nm != b.t.nm:
                 return z3.BoolVal(False)
@@ -1013,6 +1036,17 @@ class Interp:
 
     def spec_seq_eq(self, n, env):
         return VBool(self.eq(self.ev(n.args[0], env), self.ev(n.args[1], env)))
+
+    def spec_same_value(self, n, env):
+        """same_value(a, b): equality of the two values' encodings (for containers: stronger than ==, which is
+        extensional and quantified; true when b is an unmodified copy of a)"""
+        a, b = self.ev(n.args[0], env), self.ev(n.args[1], env)
+        if isinstance(a, VDictRec) and not a.fields and isinstance(b, VMap):
+            a = self.empty_map(b.t)
+        if isinstance(b, VDictRec) and not b.fields and isinstance(a, VMap):
+            b = self.empty_map(a.t)
+        t = self.join_types([typeof(a), typeof(b)])
+        return VBool(unwrap(a, t) == unwrap(b, t))
 
     def spec_same_obj(self, n, env):
         return VBool(z3.BoolVal(self.ev(n.args[0], env) is self.ev(n.args[1], env)))
